@@ -34,6 +34,9 @@ type Inst struct {
 	FbKind string `json:"fb_kind,omitempty"` // result | error | func
 	FbVal  int    `json:"fb_val,omitempty"`
 	FbErr  string `json:"fb_err,omitempty"`
+	// Mute: listeners of this instance that are NOT registered (by name, e.g. "OnStateChanged", "OnOpen", "OnRetry")
+	Mute []string `json:"mute,omitempty"`
+
 	// FbCancel: the fallback function (kind func) cancels the execution's context before returning
 	FbCancel bool `json:"fb_cancel,omitempty"`
 
@@ -57,6 +60,14 @@ type Inst struct {
 }
 
 func (in Inst) String() string {
+	s := in.describe()
+	if len(in.Mute) > 0 {
+		s += fmt.Sprintf("[without listeners %v]", in.Mute)
+	}
+	return s
+}
+
+func (in Inst) describe() string {
 	switch in.Kind {
 	case "retry":
 		s := fmt.Sprintf("Retry{max=%d", in.MaxRetries)
@@ -187,4 +198,26 @@ func (sc Scenario) usesFire() bool {
 		}
 	}
 	return false
+}
+
+// Muted reports whether the instance leaves the named listener unregistered.
+func (in Inst) Muted(name string) bool {
+	for _, m := range in.Mute {
+		if m == name {
+			return true
+		}
+	}
+	return false
+}
+
+// ListenerNames lists the listeners each policy kind offers.
+var ListenerNames = map[string][]string{
+	"retry":    {"OnSuccess", "OnFailure", "OnRetry", "OnRetriesExceeded", "OnAbort", "OnRetryScheduled"},
+	"breaker":  {"OnSuccess", "OnFailure", "OnStateChanged", "OnOpen", "OnHalfOpen", "OnClose"},
+	"fallback": {"OnSuccess", "OnFailure", "OnFallbackExecuted"},
+	"cache":    {"OnCacheMiss", "OnResultCached", "OnCacheHit"},
+	"bulkhead": {"OnFull"},
+	"timeout":  {"OnTimeoutExceeded"},
+	"hedge":    {"OnHedge"},
+	"limiter":  {"OnRateLimitExceeded"},
 }
